@@ -175,6 +175,33 @@ def run_history(t):
         out.append(r)
     return {'ok': out}
 
+def make_config(spec):
+    """A DiffConfig as a caller of the public API (nbdime.diff(a, b, config=...)) builds one: ONE predicate per list path, and
+    that predicate is a SIMILARITY (items can match and still differ), so that the single-level list differ recurses into the
+    matched items.  spec: kind = by_field (dicts that carry `field` match when the field values agree) | casefold (strings
+    that agree up to case) | head (non-empty lists with the same first item) | mixed (all three); every other pair of items
+    is compared strictly.  paths = None (the predicate serves every list) or the list paths it is registered for (all other
+    lists keep the default strict predicate); seq = list | tuple (the container type of the predicate collection)."""
+    from collections import defaultdict
+    from nbdime.diffing.config import DiffConfig
+    from nbdime.utils import strict_equals
+    kind = spec['kind']; field = spec.get('field', 'id')
+    def pred(x, y):
+        if kind in ('by_field', 'mixed') and isinstance(x, dict) and isinstance(y, dict) and field in x and field in y:
+            return strict_equals(x[field], y[field])
+        if kind in ('casefold', 'mixed') and isinstance(x, str) and isinstance(y, str):
+            return x.casefold() == y.casefold()
+        if kind in ('head', 'mixed') and isinstance(x, list) and isinstance(y, list) and x and y:
+            return strict_equals(x[0], y[0])
+        return strict_equals(x, y)
+    seq = tuple if spec.get('seq') == 'tuple' else list
+    paths = spec.get('paths')
+    if paths is None:
+        predicates = defaultdict(lambda: seq([pred]))
+    else:
+        predicates = defaultdict(lambda: (strict_equals,), {p: seq([pred]) for p in paths})
+    return DiffConfig(predicates=predicates)
+
 def run_task(t):
     import nbdime
     from nbdime.diff_utils import to_clean_dicts, to_diffentry_dicts
@@ -198,6 +225,16 @@ def run_task(t):
         except Exception as e:
             pr = exc_info(e)
         return {'ok': dj, 'patched': pr, 'oracles': orc, 'reuse': reuse_leg(nbdime.patch, lambda: copy.deepcopy(t['a']), d)}
+    if op == 'diff_config':
+        # the generic differ called through its public `config` argument (see make_config), and the patch round trip
+        a, b = copy.deepcopy(t['a']), copy.deepcopy(t['b'])
+        d = nbdime.diff(a, b, config=make_config(t['config']))
+        dj = clean(d)
+        try:
+            pr = {'ok': clean(nbdime.patch(copy.deepcopy(t['a']), to_diffentry_dicts(json.loads(json.dumps(dj)))))}
+        except Exception as e:
+            pr = exc_info(e)
+        return {'ok': dj, 'patched': pr}
     if op == 'nbdiff_patch':
         a, b = as_nb(t['a']), as_nb(t['b'])
         d = nbdime.diff_notebooks(a, b)
